@@ -14,6 +14,7 @@ import json
 import os
 import re
 import shutil
+import time
 
 from . import common
 
@@ -368,7 +369,11 @@ def run_project(ctx, base, idx, proj, probes):
     return res, srcs
 
 
+n_fixed = [0]
+
+
 def fixed_probe(ctx, base, name, files, main="main.gdn"):
+    n_fixed[0] += 1
     d = os.path.join(base, name)
     shutil.rmtree(d, ignore_errors=True)
     os.makedirs(d)
@@ -454,7 +459,8 @@ def oracle(ctx, proj, probes, results, srcs):
             continue
         if c.startswith("crash") or r.startswith("crash"):
             site = c if c.startswith("crash") else r
-            if reimport and "eval.rs:476" in site:
+            if n_missing and "eval.rs:476" in site:     # an unreadable path met twice (textually, or because
+                #                                             the importing file is itself loaded twice)
                 ctx.fail(K_REIMPORT, "importing an unreadable file twice panics", **replay(p, c, r))
             elif selfimp and "eval.rs:646" in site:
                 ctx.fail(K_SELF, "a file importing itself (no `as`) with a public function panics", **replay(p, c, r))
@@ -590,6 +596,8 @@ def run(ctx):
 
 
 def _run(ctx, rng, base):
+    t_fixed = time.time()
+    n_fixed[0] = 0
     # ---- which of the two crash sites does this build have? (fixed, model-free replays)
     c1, r1 = fixed_probe(ctx, base, "fx1", {"main.gdn": 'import "./nosuch.gdn" as a\nimport "./nosuch.gdn" as b\nprintln("hi")\n'})
     c2, r2 = fixed_probe(ctx, base, "fx2", {"main.gdn": 'import "./main.gdn"\npublic fun x(): Int { 1 }\nprintln(string_repr(x()))\n'})
@@ -649,9 +657,15 @@ def _run(ctx, rng, base):
 
     # ---- generated projects
     gen = Gen(rng)
-    n_proj = int(os.environ.get("C34_PROJECTS", ctx.scale(40, 1500)))
     max_files = ctx.scale(4, 6)
     per_proj = ctx.scale(11, 30)
+    # quick tier: as many projects as fit in about two minutes at the measured process cost
+    # (30 ms on an idle machine, 0.5 s when the sandbox is shared), between 24 and 300
+    per_process = max(0.02, (time.time() - t_fixed) / max(1, 2 * n_fixed[0]))
+    par = max(1, common.NPROC // 2) if per_process < 0.15 else 2     # a loaded machine does not parallelise
+    budget = int(120.0 * par / (per_process * 2 * per_proj))
+    n_proj = int(os.environ.get("C34_PROJECTS", ctx.scale(max(24, min(300, budget)), 1500)))
+    ctx.cov["seconds_per_garden_process"] = round(per_process, 3)
     shapes = ["chain", "diamond", "cycle", "cycle", "self", "multi", "random", "random"]
     projs = []
     for k in range(n_proj):
@@ -672,7 +686,15 @@ def _run(ctx, rng, base):
                 "Variant, struct literals, method calls; outcome = error kind or the tag of the definition reached. "
                 "Non-trivial = the probe's name is defined somewhere in the project with both outcomes possible "
                 "(not the `nosuch`/`zz`/`S9` negative controls)." % max_files)
-    model = ctx.model_batch([model_line(p, ps, cfg) for _, p, ps in projs], shards=min(8, common.NPROC))
+    mlines = [model_line(p, ps, cfg) for _, p, ps in projs]
+    model = ctx.model_batch(mlines, shards=min(8, common.NPROC))
+    for attempt in range(2):      # the driver binary may be relinked by a concurrent build
+        bad = [i for i, m in enumerate(model) if m is None or m.startswith("DIED")]
+        if not bad:
+            break
+        time.sleep(5)
+        for i, m in zip(bad, ctx.model_batch([mlines[i] for i in bad], shards=1)):
+            model[i] = m
     impl = common.pmap(lambda t: run_project(ctx, base, t[0], t[1], t[2]), projs)
     stats = {"ok": 0, "err": 0, "crash_projects": 0, "cyclic_projects": 0, "probes": 0, "missing_projects": 0}
     kinds = {}
